@@ -274,6 +274,12 @@ def csv_classify(line, impl, mobs, extra):
     return info
 
 
+def c11_streams(tier, seed):
+    q = tier == "quick"
+    return [(["csv", str(seed), "1500" if q else "40000"], csv_classify),
+            (["tok", "c11", str(seed), "60" if q else "1500"], tok2_classifier("C03", has_lattice_choice))]
+
+
 def simple_streams(name, nq, nt, classify):
     def streams(tier, seed):
         n = nq if tier == "quick" else nt
@@ -391,8 +397,12 @@ PROPS = {
         "assumptions": [],
     },
     "C13": {
-        "modules": ["Vibrato.Props.C13probs"],
-        "theorems": ["Vibrato.Mapper.probs_perm_sorted", "Vibrato.Mapper.reorder_accepted_by_map", "Vibrato.Mapper.reorder_then_map"],
+        "modules": ["Vibrato.Props.C13probs", "Vibrato.Props.C13"],
+        "theorems": ["Vibrato.Mapper.probs_perm_sorted", "Vibrato.Mapper.reorder_accepted_by_map", "Vibrato.Mapper.reorder_then_map",
+                     "Vibrato.counts_eq_evaluations", "Vibrato.buildLatticeTr_lattice", "Vibrato.worker_counts_eq_evaluations",
+                     "Vibrato.counts_history_independent", "Vibrato.counts_after_init", "Vibrato.sumIncr_append",
+                     "Vibrato.empty_first_line_panics", "Vibrato.empty_later_line_recounts", "Vibrato.worker_probs_spec",
+                     "Vibrato.worker_probs_eq_computeProbs", "Vibrato.counter_dims", "Vibrato.probs_never_panics", "Vibrato.reorder_accepted"],
         "streams": tok_streams("c13", 300, 8000, tok2_classifier("C13", has_probs)),
         "rule": "histories of reset/tokenize/update_connid_counts incl. empty lines and repeats, with and without ignore_space; raw "
                 "counts compared with the model after every update; the id orderings must be permutations sorted by count then id",
@@ -407,7 +417,7 @@ PROPS = {
                      "Vibrato.C11.quote_csv_cell_eq", "Vibrato.C11.unquote_quote",
                      "Vibrato.C11.witness_eof_after_fourth_comma", "Vibrato.C11.witness_trailing_blank",
                      "Vibrato.C11.witness_trailing_comma"],
-        "streams": simple_streams("csv", 1500, 40000, csv_classify),
+        "streams": c11_streams,
         "rule": "50% well-formed lexicon CSVs (quoted/unquoted cells, embedded commas/quotes/newlines, multi-byte text, "
                 "empty surfaces, extreme numbers, blank lines, CRLF, with/without final newline; the generator knows the "
                 "expected rows), 20% single-edit corruptions incl. ~4096-byte fields, parse_csv_row, quote_csv_cell and the "
